@@ -25,16 +25,16 @@ import (
 // ---- scripted server process ----
 
 type vfSrvPlan struct {
-	StartErr       bool
-	StdinFailAt    int  // <0 never: byte offset at which stdin.Write fails
-	StdinCloseErr  bool
-	Stdout         []byte // what the server writes to stdout (possibly cut / garbage / oversize)
-	StdoutStall    bool   // block after Stdout instead of EOF (real 10 s timeout)
-	DieAfterSends  int    // <0 never: server exits when the client runner sees its k-th send call
-	DieAfterResponse bool // server exits right after its response was read, before any request is sent
-	DieCleanly     bool   // the exit (DieAfterSends / DieAfterResponse) is a clean one: status 0, no error reported
-	Stderr         string
-	Desc           string
+	StartErr         bool
+	StdinFailAt      int // <0 never: byte offset at which stdin.Write fails
+	StdinCloseErr    bool
+	Stdout           []byte // what the server writes to stdout (possibly cut / garbage / oversize)
+	StdoutStall      bool   // block after Stdout instead of EOF (real 10 s timeout)
+	DieAfterSends    int    // <0 never: server exits when the client runner sees its k-th send call
+	DieAfterResponse bool   // server exits right after its response was read, before any request is sent
+	DieCleanly       bool   // the exit (DieAfterSends / DieAfterResponse) is a clean one: status 0, no error reported
+	Stderr           string
+	Desc             string
 }
 
 type vfSrvCtl struct {
@@ -164,22 +164,23 @@ func (s *vfStallReader) Read(p []byte) (int, error) {
 // ---- scripted client runner ----
 
 type vfCaseScript struct {
-	Kind  string // pass | mismatch | clienterror | noresult | neither
-	Async int    // microseconds of delay; 0 = callback inside sendRequest
+	Kind     string // pass | mismatch | clienterror | noresult | neither
+	Async    int    // microseconds of delay; 0 = callback inside sendRequest
+	Feedback bool   // a pass / mismatch answer also carries a feedback remark (what a reference client adds about the wire)
 }
 
 type vfFakeClient struct {
-	mu         sync.Mutex
-	scripts    map[string]vfCaseScript
-	sendErrAt  int // <0 never: the k-th sendRequest call returns an error
-	calls      int
-	srv        *vfSrvCtl
-	dieAfter   int
-	cbWG       sync.WaitGroup
-	fired      map[string]int
-	accepted   []string
-	reqs       map[string]*conformancev1.ClientCompatRequest
-	expected   map[string]*conformancev1.ClientResponseResult
+	mu             sync.Mutex
+	scripts        map[string]vfCaseScript
+	sendErrAt      int // <0 never: the k-th sendRequest call returns an error
+	calls          int
+	srv            *vfSrvCtl
+	dieAfter       int
+	cbWG           sync.WaitGroup
+	fired          map[string]int
+	accepted       []string
+	reqs           map[string]*conformancev1.ClientCompatRequest
+	expected       map[string]*conformancev1.ClientResponseResult
 	sentAfterDeath []string
 	lastFireSeq    int64 // logical time at which the last answer was handed to the runner
 }
@@ -217,9 +218,16 @@ func (f *vfFakeClient) sendRequest(req *conformancev1.ClientCompatRequest, whenD
 		f.mu.Unlock()
 		switch sc.Kind {
 		case "pass":
-			whenDone(name, &conformancev1.ClientCompatResponse{TestName: name, Result: &conformancev1.ClientCompatResponse_Response{Response: proto.Clone(f.expected[name]).(*conformancev1.ClientResponseResult)}}, nil)
+			r := proto.Clone(f.expected[name]).(*conformancev1.ClientResponseResult)
+			if sc.Feedback {
+				r.Feedback = []string{"wire remark/" + name}
+			}
+			whenDone(name, &conformancev1.ClientCompatResponse{TestName: name, Result: &conformancev1.ClientCompatResponse_Response{Response: r}}, nil)
 		case "mismatch":
 			r := proto.Clone(f.expected[name]).(*conformancev1.ClientResponseResult)
+			if sc.Feedback {
+				r.Feedback = []string{"wire remark/" + name}
+			}
 			r.Payloads = append(r.Payloads, &conformancev1.ConformancePayload{Data: []byte("surplus")})
 			whenDone(name, &conformancev1.ClientCompatResponse{TestName: name, Result: &conformancev1.ClientCompatResponse_Response{Response: r}}, nil)
 		case "clienterror":
@@ -444,6 +452,23 @@ func vfRunBatch(rep *verifkit.Report, sc *vfBatchScenario, id string) {
 	if faulty && sc.ServerFault != "response-empty-message" && len(fc.accepted) > 0 {
 		rep.Violation("batch/cases-sent-despite-server-fault/"+sc.ServerFault, fmt.Sprintf("%d cases were sent to the client although the server never came up (%s)", len(fc.accepted), sc.ServerFault), w)
 	}
+	// feedback of a reference client is recorded for the case it came with (and only then)
+	for _, n := range fc.accepted {
+		script := fc.scripts[n]
+		if !script.Feedback || (script.Kind != "pass" && script.Kind != "mismatch") || fc.fired[n] == 0 {
+			continue
+		}
+		got, ok := results.serverSideband[n]
+		switch {
+		case sc.RefClient && !ok:
+			rep.Violation("batch/reference-client-feedback-dropped", fmt.Sprintf("the reference client's answer for %q carried feedback, nothing was recorded for the case", n), w)
+		case sc.RefClient:
+			rep.Count("client_feedback_recorded", 1)
+		default:
+			rep.Count("client_feedback_of_a_client_under_test(not judged)", 1)
+			_ = got
+		}
+	}
 	// stderr attribution (reference server only, when it was started and the run got past the start)
 	if sc.RefServer && ctl.started && sc.Srv.Stderr != "" && !faulty && sc.Srv.DieAfterSends < 0 {
 		wantSide := map[string]string{}
@@ -461,11 +486,21 @@ func vfRunBatch(rep *verifkit.Report, sc *vfBatchScenario, id string) {
 			}
 		}
 		for n, msg := range wantSide {
+			if fb := fc.scripts[n]; sc.RefClient && fb.Feedback {
+				// both reference peers remark on the same case (only possible when neither peer is under test):
+				// one remark per case is kept, which one is not specified
+				if _, ok := results.serverSideband[n]; ok {
+					continue
+				}
+			}
 			if got, ok := results.serverSideband[n]; !ok || got != msg {
 				rep.Violation("batch/feedback-not-attributed", fmt.Sprintf("feedback %q for %q not recorded (got %q)", msg, n, got), w)
 			}
 		}
 		for n := range results.serverSideband {
+			if fb := fc.scripts[n]; sc.RefClient && fb.Feedback {
+				continue // (the reference client's own remark about this case)
+			}
 			if _, ok := wantSide[n]; !ok {
 				rep.Violation("batch/feedback-misattributed", fmt.Sprintf("sideband entry for %q which the server never named / is outside the batch", n), w)
 			}
@@ -502,7 +537,7 @@ func TestVerifC11Batch(t *testing.T) {
 	mkScripts := func(n int) []vfCaseScript {
 		out := make([]vfCaseScript, n)
 		for i := range out {
-			out[i] = vfCaseScript{Kind: verifkit.Pick(rng, []string{"pass", "pass", "mismatch", "clienterror", "noresult", "neither"}), Async: []int{0, 0, 50, 400, 3000}[rng.Intn(5)]}
+			out[i] = vfCaseScript{Kind: verifkit.Pick(rng, []string{"pass", "pass", "mismatch", "clienterror", "noresult", "neither"}), Async: []int{0, 0, 50, 400, 3000}[rng.Intn(5)], Feedback: rng.Chance(1, 4)}
 		}
 		return out
 	}
@@ -638,7 +673,7 @@ func TestVerifC11Batch(t *testing.T) {
 	}
 	wg.Wait()
 	rep.Sample(map[string]any{"cases": 4, "server_fault": "exits after 2 of 4 sends", "scripts": "case0 pass (sync), case1 clienterror (3 ms later)", "expect": "case0 pass, case1 its client error, case2/3 setup errors; abort called"})
-	for _, k := range []string{"fault:response-truncated", "fault:server-exits-after-k-sends", "fault:client-send-error-at-k", "fault:response-missing-cert", "fault:response-stall", "stderr_scripts_checked"} {
+	for _, k := range []string{"fault:response-truncated", "fault:server-exits-after-k-sends", "fault:client-send-error-at-k", "fault:response-missing-cert", "fault:response-stall", "stderr_scripts_checked", "client_feedback_recorded"} {
 		rep.RequireMin(k, 2)
 	}
 	_ = sort.Strings
@@ -652,13 +687,13 @@ func TestVerifC11OSProcess(t *testing.T) {
 	rep := verifkit.Begin("C11", "os-process", "runTestCasesForServer with startServer = runCommand(sh -c script): exits at once, exits after a delay without reading, reads 2 bytes and exits, consumes the request and closes stdout, answers garbage, answers a truncated frame, exits non-zero after consuming; batches of 1-4 cases with a scripted client runner; oracle: returns within the progress bound, every case a setup error, nothing sent to the client; distinct = (script, batch size, repetition)")
 	defer rep.Write()
 	scripts := map[string]string{
-		"exit-at-once":           "exit 0",
-		"exit-nonzero-at-once":   "exit 3",
-		"exit-late-without-read": "sleep 0.03; exit 1",
-		"read-2-bytes-then-exit": "head -c 2 >/dev/null; exit 0",
-		"consume-then-eof":       "cat >/dev/null",
-		"consume-then-garbage":   "cat >/dev/null; printf '\\000\\000\\000\\005\\377\\377\\377\\377\\377'",
-		"consume-then-truncated": "cat >/dev/null; printf '\\000\\000\\000\\011ab'",
+		"exit-at-once":            "exit 0",
+		"exit-nonzero-at-once":    "exit 3",
+		"exit-late-without-read":  "sleep 0.03; exit 1",
+		"read-2-bytes-then-exit":  "head -c 2 >/dev/null; exit 0",
+		"consume-then-eof":        "cat >/dev/null",
+		"consume-then-garbage":    "cat >/dev/null; printf '\\000\\000\\000\\005\\377\\377\\377\\377\\377'",
+		"consume-then-truncated":  "cat >/dev/null; printf '\\000\\000\\000\\011ab'",
 		"garbage-without-reading": "printf '\\000\\000\\000\\005\\377\\377\\377\\377\\377'; sleep 0.02",
 	}
 	reps := verifkit.Scale(3, 25)
